@@ -6,6 +6,19 @@ import re
 from six import integer_types
 
 
+def safe_repr(value):
+    """repr() for error messages about untrusted values.
+
+    Python 3.11+ raises ValueError when an integer with more than a few
+    thousand digits is converted to a decimal string; a decoder must not
+    leak that while reporting a malformed input.
+    """
+    try:
+        return repr(value)
+    except ValueError:
+        return "<value too large to print>"
+
+
 def str_idx_as_int(string, index):
     """Take index'th byte from string, return as integer"""
     val = string[index]
